@@ -13,7 +13,7 @@ import (
 // Corpus files that only compute and echo: no file/network/process/time
 // access, no include, no class-like declaration shared with another file of
 // the batch (the compile command parses a whole build against one registry).
-var reUnsafe = regexp.MustCompile(`(?i)\b(include|require|include_once|require_once|__DIR__|__FILE__|__LINE__|fopen|fwrite|file_put_contents|file_get_contents|unlink|mkdir|rmdir|scandir|glob|tempnam|tmpfile|exec|system|passthru|shell_exec|proc_open|popen|sleep|usleep|time|microtime|hrtime|date|mktime|strtotime|rand|mt_rand|random_int|random_bytes|uniqid|shuffle|array_rand|str_shuffle|getmypid|spl_object_id|spl_object_hash|memory_get_usage|memory_get_peak_usage|spawn|Server|Channel|curl_\w+|socket_\w+|stream_\w+|getenv|putenv|\$_SERVER|\$argv|\$_ENV|php_sapi_name|phpversion|PHP_VERSION|PHP_OS|sys_get_temp_dir|getcwd|chdir|set_time_limit|ini_set|error_log|debug_backtrace|debug_print_backtrace|eval|DateTime\w*|Reflection\w*|Database|PDO|mysqli\w*|sqlite\w*|pcntl_\w+|posix_\w+|signal|gc_\w+|opcache_\w+|header|setcookie|session_\w+|ob_\w+|flush|readline|fgets|STDIN|STDOUT|STDERR|fscanf|stream|run_php_file|class_alias|spl_autoload_register|Log|Http|Net|Fiber)\b`)
+var reUnsafe = regexp.MustCompile(`(?i)\b(include|require|include_once|require_once|__DIR__|__FILE__|__LINE__|fopen|fwrite|file_put_contents|file_get_contents|unlink|mkdir|rmdir|scandir|glob|tempnam|tmpfile|exec|system|passthru|shell_exec|proc_open|popen|sleep|usleep|time|microtime|hrtime|date|mktime|strtotime|rand|mt_rand|random_int|random_bytes|uniqid|shuffle|array_rand|str_shuffle|getmypid|spl_object_id|spl_object_hash|memory_get_usage|memory_get_peak_usage|spawn|Server|Channel|curl_\w+|socket_\w+|stream_\w+|getenv|putenv|php_sapi_name|phpversion|PHP_VERSION|PHP_OS|sys_get_temp_dir|getcwd|chdir|set_time_limit|ini_set|error_log|debug_backtrace|debug_print_backtrace|eval|DateTime\w*|Reflection\w*|Database|PDO|mysqli\w*|sqlite\w*|pcntl_\w+|posix_\w+|signal|gc_\w+|opcache_\w+|header|setcookie|session_\w+|ob_\w+|flush|readline|fgets|STDIN|STDOUT|STDERR|fscanf|stream|run_php_file|class_alias|spl_autoload_register|Log|Http|Net|Fiber)\b`)
 
 var reDecl = regexp.MustCompile(`(?im)^\s*(?:abstract\s+|final\s+)*(class|interface|trait|enum|function)\s+([A-Za-z_][A-Za-z0-9_]*)`)
 
@@ -25,7 +25,7 @@ func corpusProgs(c *vh.Ctx, name func(string) string) []*Prog {
 		if !strings.HasPrefix(in.Name, "tests/") || !strings.HasSuffix(in.Name, ".php") {
 			continue
 		}
-		if len(in.Src) > 20000 || reUnsafe.MatchString(in.Src) || !strings.HasPrefix(strings.TrimSpace(in.Src), "<?php") {
+		if len(in.Src) > 20000 || reUnsafe.MatchString(in.Src) || strings.Contains(in.Src, "$_SERVER") || strings.Contains(in.Src, "$argv") || strings.Contains(in.Src, "$argc") || strings.Contains(in.Src, "$_ENV") || !strings.HasPrefix(strings.TrimSpace(in.Src), "<?php") {
 			continue
 		}
 		clash := false
@@ -44,10 +44,15 @@ func corpusProgs(c *vh.Ctx, name func(string) string) []*Prog {
 			seenDecl[d] = true
 		}
 		tag := "corpus"
+		declares := false
 		for _, m := range reDecl.FindAllStringSubmatch(in.Src, -1) {
 			if strings.ToLower(m[1]) != "function" {
-				tag = "corpus-declares-class" // known: class-like declarations in the entry file
+				declares = true // class-like declarations in an entry file: known finding, exercised by the entry-* features
 			}
+		}
+		if declares || strings.Contains(in.Src, "new class") {
+			c.Hit("corpus-skipped:declares-class")
+			continue
 		}
 		p := &Prog{Name: name("c"), Kind: "corpus", Tags: []string{tag}, Src: in.Src, Origin: in.Name}
 		p.Tags = []string{tag + ":" + filepath.ToSlash(in.Name)}
